@@ -9,6 +9,8 @@ Decided statically, as necessary conditions of memory safety:
       kernel is a stored vector or a query/embedding whose length was compared with the dimension on the way in.
   R3  closed inventory of unsafe operations per function.
   R4  every vector load / store of the kernels proved in bounds (linear bounds over loop ranges).
+  R5  packed record layout shapes + lemma; no in-bounds pointer arithmetic past a record in the prefetch.
+  R6  CPU dispatch: kernels run only after their #[target_feature] sets were detected; intrinsics covered by the kernel's own set.
 Not decided: record-layout arithmetic of PackedLevel0.
 """
 import re
@@ -24,7 +26,8 @@ MANIFEST = {
             'idiom fails closed), neighbour indexes range over 0..count(id), the visited bitset is prepared for the same n; the f32 kernels are '
             'reachable only through the length-asserting wrappers of simd.rs and the metric kernel, whose slice arguments are stored vectors or '
             'queries compared with the dimension on every call chain; the per-function table of unsafe operations is closed; every vector load / store of the SIMD kernels is proved inside its slice '
-            '(off + lanes ≤ len from loop ranges and floor divisions, linear bounds). PackedLevel0 record-layout arithmetic is not decided.',
+            '(off + lanes ≤ len from loop ranges and floor divisions, linear bounds); the packed record layout is checked against a fixed lemma; kernels are '
+            'dispatched only behind detection of every CPU feature they declare.',
     'design_ref': 'DESIGN.md §4.17',
     'note': 'Trusted base: rustc MIR, guard normal forms (casts transparent), jump threading of || chains. Use-after-free is excluded by '
             'ownership (borrow checker), not by this check.',
@@ -633,6 +636,89 @@ def r5(ctx, prog):
         ctx.inst('C17.R5', _fn(ns), 'node_start = id·r', 'Some{num::saturating_mul(arg:dense_id, arg:self→PackedLevel0.record_words)}' in r_, r_[:140])
 
 
+IMPLIES = {'avx512f': ['avx2', 'fma', 'f16c'], 'avx2': ['avx'], 'fma': ['avx'], 'f16c': ['avx'], 'avx': ['sse4.2'], 'sse4.2': ['sse4.1'], 'sse4.1': ['ssse3'], 'ssse3': ['sse3'],
+           'sse3': ['sse2'], 'sse2': ['sse'], 'neon': []}
+BASELINE = {'x86_64': ['sse', 'sse2']}   # guaranteed by the x86_64 ABI
+
+
+def _closure(fs):
+    out = set()
+    work = list(fs)
+    while work:
+        f = work.pop()
+        if f in out:
+            continue
+        out.add(f)
+        work += IMPLIES.get(f, [])
+    return out
+
+
+def r6(ctx, prog):
+    ctx.rule('C17.R6', 'CPU dispatch: a kernel compiled for a CPU feature set runs only after those features were detected — (a) every intrinsic a kernel calls needs '
+                       'only features the kernel itself declares with #[target_feature]; (b) in detect_best_f32_kernels a table of entry shims is built only in '
+                       'blocks that every path reaches through the true edges of is_x86_feature_detected! for features whose closure (rustc\'s implication '
+                       'table, plus the x86_64 baseline sse/sse2) covers everything the shims\' kernels declare; (c) the table is built nowhere else')
+    kern = {}
+    for b in sorted(prog.bodies.values(), key=lambda x: x.id):
+        if b.crate != 'kyrodb_engine' or '::simd::' not in b.id or b.kind not in ('Fn', 'AssocFn') or not b.target_features:
+            continue
+        kern[b.id] = b
+        have = set(b.target_features)
+        bad = sorted(set('%s needs %s' % (flow.short(c.callee), sorted(set(c.callee_features) - have)) for c in b.calls if c.callee and set(c.callee_features) - have))
+        ctx.inst('C17.R6', b.short, 'calls only intrinsics covered by its own #[target_feature] set', not bad, '; '.join(bad)[:200] if bad else 'declares %s' % sorted(set(b.target_features) - set(x for f in b.target_features for x in _closure(IMPLIES.get(f, [])))))
+    ctx.floor('C17.R6', 'kernels with #[target_feature]', len(kern), 12, '4 kernels x 3 ISA levels')
+    # safe functions must not call feature-gated kernels except the entry shims (checked in R4) — and shims carry no features themselves
+    det = ctx.body('C17.R6', 'simd::detect_best_f32_kernels')
+    if det is None:
+        return
+    do = flow.Origin(det)
+    preds = _preds(det, do)
+    det_edges = {}
+    for i, tg, p in preds:
+        m = re.match(r'^bool\[__is_feature_detected::(\w+)\(\)\]$', p)
+        if m:
+            det_edges.setdefault(m.group(1).replace('_', '.') if m.group(1).startswith('sse4') else m.group(1), []).append((i, tg))
+            # the `cfg!(target_feature = X) ||` half of the macro: a constant-true switch whose false edge leads straight to this detection call
+            for i2, tg2, p2 in preds:
+                if p2 == 'bool[1]' and i in (det.reach([x for x in det.succ(i2) if x != tg2], avoid_blocks=[]) | set(det.succ(i2))) and tg2 == tg:
+                    det_edges[m.group(1)].append((i2, tg2))
+    n_tab = 0
+    for i, blk in enumerate(det.blocks):
+        for st in blk['s']:
+            rv = st.get('rv')
+            if not (rv and rv['k'] == 'agg' and rv.get('adt', '').endswith('simd::ResolvedF32Kernels')):
+                continue
+            n_tab += 1
+            shims = [flow.render(do.of_operand(o)) for o in rv['ops']]
+            need = set()
+            for sname in shims:
+                sb = prog.resolve_local(sname.replace('fn:', ''))
+                if sb is None:
+                    need.add('?unresolved shim %s' % sname[-30:])
+                    continue
+                for c in sb.calls:
+                    kb = prog.resolve_local(c.callee) if c.callee else None
+                    if kb is not None and kb.id in kern:
+                        need |= set(kb.target_features)
+            must = set()
+            # edges of constant switches that cannot be taken (`cfg!(target_feature = ..)` evaluated at compile time)
+            dead = [(i2, tg2) for i2, tg2, p2 in preds if p2 in ('bool[0]', '!bool[1]')]
+            for f, es in det_edges.items():
+                if i not in (det.reach([0], avoid_edges=es + dead) | {0}):
+                    must.add(f)
+            have = _closure(must | set(BASELINE['x86_64']))
+            level = sorted(set(re.search(r'_(avx512|avx2|sse2|scalar|neon)_entry$', x).group(1) for x in shims if re.search(r'_(avx512|avx2|sse2|scalar|neon)_entry$', x)))
+            ctx.inst('C17.R6', 'simd::detect_best_f32_kernels', 'table %s is built only after its kernels\' features were detected' % level, not (need - have) and len(level) == 1,
+                     'kernels declare %s; every path detected %s' % (sorted(need - set(BASELINE['x86_64']) - set(x for f in need for x in _closure(IMPLIES.get(f, [])))) or 'nothing beyond the baseline', sorted(must)))
+    ctx.floor('C17.R6', 'kernel tables in detect_best_f32_kernels', n_tab, 4, 'avx512, avx2, sse2, scalar')
+    others = sorted(set(b.short.split('::{')[0] for b in prog.bodies.values() if b.crate == 'kyrodb_engine' and b.kind != 'Promoted' and b is not det for blk in b.blocks for st in blk['s']
+                        if st.get('rv', {}).get('k') == 'agg' and st['rv'].get('adt', '').endswith('simd::ResolvedF32Kernels')))
+    ctx.inst('C17.R6', 'simd::ResolvedF32Kernels', 'built only by detect_best_f32_kernels', not [o for o in others if 'Clone' not in o], 'other builders: %s' % others)
+    once = [c for c in prog.callers_of('simd::detect_best_f32_kernels')]
+    ctx.inst('C17.R6', 'simd::detect_best_f32_kernels', 'called only to initialise the process-wide table', sorted(set(c.body.short.split('::{')[0] for c in once)) == ['simd::resolved_f32_kernels'] or all('resolved_f32_kernels' in c.body.id or 'OnceLock' in (c.body.id) for c in once) or not once,
+             'callers: %s' % sorted(set(c.body.short.split('::{')[0] for c in once)))
+
+
 def run(ctx, prog):
     ctx.not_decided = ['value arithmetic of the kernels other than the bounds of their vector loads (reductions, accumulators)', 'the lemma that turns the checked layout shapes of PackedLevel0 into the bound is a fixed pen-and-paper argument (rule text of R5), not re-derived per run',
                        'use-after-free (excluded by ownership, not by this check)', 'ffi-bench trusted entry points (thorough tier, named exception)']
@@ -645,4 +731,5 @@ def run(ctx, prog):
     r3(ctx, prog)
     r4(ctx, prog)
     r5(ctx, prog)
+    r6(ctx, prog)
     ctx.stat('functions_analysed', len(set(i['key'].split(' | ')[1] for i in ctx.instances)))
